@@ -3,8 +3,6 @@ package encoder
 import (
 	"bytes"
 	"fmt"
-	"strconv"
-	"unsafe"
 
 	"github.com/goccy/go-json/internal/errors"
 )
@@ -233,16 +231,84 @@ func compactString(dst, src []byte, cursor int64, escape bool) ([]byte, int64, e
 		switch c {
 		case '\\':
 			cursor++
-			if src[cursor] == nul {
+			switch src[cursor] {
+			case '"', '\\', '/', 'b', 'f', 'n', 'r', 't':
+			case 'u':
+				for i := int64(1); i <= 4; i++ {
+					if !isHexDigit[src[cursor+i]] {
+						// (the terminator is not a hex digit: this cannot run past the end)
+						if src[cursor+i] == nul && cursor+i == int64(len(src))-1 {
+							return nil, 0, errors.ErrUnexpectedEndOfJSON("string", int64(len(src)))
+						}
+						return nil, 0, errors.ErrInvalidCharacter(src[cursor+i], "\\u hexadecimal character escape", cursor+i)
+					}
+				}
+				cursor += 4
+			case nul:
 				return nil, 0, errors.ErrUnexpectedEndOfJSON("string", int64(len(src)))
+			default:
+				return nil, 0, errors.ErrInvalidCharacter(src[cursor], "string escape code", cursor)
 			}
 		case '"':
 			cursor++
 			return append(dst, src[start:cursor]...), cursor, nil
 		case nul:
-			return nil, 0, errors.ErrUnexpectedEndOfJSON("string", int64(len(src)))
+			if cursor == int64(len(src))-1 {
+				return nil, 0, errors.ErrUnexpectedEndOfJSON("string", int64(len(src)))
+			}
+			return nil, 0, errors.ErrInvalidCharacter(c, "string literal", cursor)
+		default:
+			if c < 0x20 {
+				// a control character has to be escaped
+				return nil, 0, errors.ErrInvalidCharacter(c, "string literal", cursor)
+			}
 		}
 	}
+}
+
+var isHexDigit = func() (t [256]bool) {
+	for _, c := range "0123456789abcdefABCDEF" {
+		t[c] = true
+	}
+	return t
+}()
+
+// validNumberLiteral reports whether num is a number of the JSON grammar:
+// -? (0 | [1-9][0-9]*) (. [0-9]+)? ([eE] [+-]? [0-9]+)?
+func validNumberLiteral(num []byte) bool {
+	i, n := 0, len(num)
+	digits := func() bool {
+		start := i
+		for i < n && '0' <= num[i] && num[i] <= '9' {
+			i++
+		}
+		return i > start
+	}
+	if i < n && num[i] == '-' {
+		i++
+	}
+	switch {
+	case i < n && num[i] == '0':
+		i++
+	case !digits():
+		return false
+	}
+	if i < n && num[i] == '.' {
+		i++
+		if !digits() {
+			return false
+		}
+	}
+	if i < n && (num[i] == 'e' || num[i] == 'E') {
+		i++
+		if i < n && (num[i] == '+' || num[i] == '-') {
+			i++
+		}
+		if !digits() {
+			return false
+		}
+	}
+	return i == n
 }
 
 func compactNumber(dst, src []byte, cursor int64) ([]byte, int64, error) {
@@ -255,11 +321,10 @@ func compactNumber(dst, src []byte, cursor int64) ([]byte, int64, error) {
 		break
 	}
 	num := src[start:cursor]
-	if _, err := strconv.ParseFloat(*(*string)(unsafe.Pointer(&num)), 64); err != nil {
-		// a number literal need not fit a float64 (1e400 is valid JSON)
-		if ne, ok := err.(*strconv.NumError); !ok || ne.Err != strconv.ErrRange {
-			return nil, 0, err
-		}
+	// the JSON grammar, not strconv's: no "01", "1.", ".5", "+1", "0x1p4", "1_0", "Inf";
+	// and a literal need not fit a float64 (1e400 is valid JSON)
+	if !validNumberLiteral(num) {
+		return nil, 0, errors.ErrSyntax(fmt.Sprintf("invalid number literal %q", num), start)
 	}
 	dst = append(dst, num...)
 	return dst, cursor, nil
